@@ -68,6 +68,8 @@ pub fn single_path_ops(p: &str, rich: bool) -> Vec<Op> {
             Op::WriteH(s(), vec![], vec![]),
             Op::WriteH(s(), vec![vec![]], vec![true]),
             Op::AppendH(s(), vec![], vec![]),
+            Op::AppendLines(s(), vec!["a".into(), "".into(), "b".into()]),
+            Op::AppendLines(s(), vec!["".into(), "".into()]),
             // modes above the rwx triplets (sticky directory, set-uid file)
             Op::MkdirM(s(), 0o1770),
             Op::MkfileM(s(), 0o4750),
